@@ -28,6 +28,10 @@ BASELINE_FAIL = {
 }
 
 
+# unseeded; measured 3 failures in 30 runs on the unmodified repository
+KNOWN_FLAKY = {"tests/transforms/autoregressive_test.py::MaskedPiecewiseQuadraticAutoregressiveTranformTest::test_forward_inverse_are_consistent"}
+
+
 def sh(cmd, cwd=None, env=None, timeout=1800):
     r = subprocess.run(cmd, shell=True, cwd=cwd, env=env, capture_output=True, text=True, timeout=timeout)
     return r.returncode, r.stdout + r.stderr
@@ -67,13 +71,28 @@ def main():
             meta["demo_out_%s" % name] = "\n".join(l for l in out.splitlines() if "Warning" not in l and "conda" not in l)[-600:]
             print("demo on %s: rc=%d" % (name, rc))
         if run_suite:
-            rc, out = sh("/venv/bin/python -m pytest -q -p no:cacheprovider --timeout=900 -x --deselect tests/transforms/linear_test.py::NaiveLinearTest --deselect tests/utils/torchutils_test.py::TorchUtilsTest::test_random_orthogonal", cwd=patched, timeout=1800, env=dict(os.environ, OMP_NUM_THREADS="2", MKL_NUM_THREADS="2"))
+            base = "/venv/bin/python -m pytest -q -p no:cacheprovider --timeout=900 --deselect tests/transforms/linear_test.py::NaiveLinearTest --deselect tests/utils/torchutils_test.py::TorchUtilsTest::test_random_orthogonal"
+            senv = dict(os.environ, OMP_NUM_THREADS="2", MKL_NUM_THREADS="2")
+            rc, out = sh(base, cwd=patched, timeout=1800, env=senv)
             tail = [l for l in out.splitlines() if " passed" in l or " failed" in l]
             meta["suite_tail"] = tail[-1] if tail else out[-300:]
+            failed = sorted(set(re.findall(r"^FAILED (\S+)", out, re.M)))
+            # The suite has unseeded randomised tests (KNOWN_FLAKY fails ~10% of runs on the clean
+            # tree).  A failing test is attributed to the patch only if it fails 3 times out of 3 on
+            # the patched copy, or fails on the patched copy and passes 5/5 on the clean copy.
+            attributed = []
+            for t in failed:
+                pf = sum(sh(base + " " + t, cwd=patched, env=senv)[0] != 0 for _ in range(3))
+                cf = sum(sh(base + " " + t, cwd=clean, env=senv)[0] != 0 for _ in range(5))
+                meta.setdefault("suite_reruns", {})[t] = {"patched_fail_of_3": pf, "clean_fail_of_5": cf}
+                if pf == 3 or (pf > 0 and cf == 0 and t not in KNOWN_FLAKY):
+                    attributed.append(t)
+            meta["suite_failed_first_run"] = failed
+            meta["suite_failures_attributed_to_patch"] = attributed
             m = re.search(r"(\d+) passed", meta["suite_tail"])
             meta["suite_passed"] = int(m.group(1)) if m else 0
-            meta["suite_ok"] = rc == 0 and meta["suite_passed"] == 147
-            print("suite on patched:", meta["suite_tail"])
+            meta["suite_ok"] = not attributed and meta["suite_passed"] + len(failed) == 147
+            print("suite on patched:", meta["suite_tail"], "| attributed to patch:", attributed)
         fired = {}
         for i in range(1, 21):
             pid = "C%02d" % i
